@@ -36,7 +36,6 @@ theorem mem_runHeads {β : Type} (eq : β → β → Bool) (x : β) (l : List β
 /-- every element of the list is represented in `runHeadsAux` by an element related to it through a
     chain of `eq`; with `eq` an equivalence: by an `eq`-equal element (or by the carried head `p`) -/
 theorem runHeadsAux_complete {β : Type} (eq : β → β → Bool)
-    (htrans : ∀ a b c, eq a b = true → eq b c = true → eq a c = true)
     (hrefl : ∀ a, eq a a = true)
     (p x : β) (l : List β) (h : x ∈ l) :
     eq p x = true ∨ ∃ y ∈ runHeadsAux eq p l, eq y x = true := by
@@ -57,7 +56,6 @@ theorem runHeadsAux_complete {β : Type} (eq : β → β → Bool)
         · right; exact ⟨y, List.mem_cons_of_mem _ hy, hyx⟩
 
 theorem runHeads_complete {β : Type} (eq : β → β → Bool)
-    (htrans : ∀ a b c, eq a b = true → eq b c = true → eq a c = true)
     (hrefl : ∀ a, eq a a = true) (x : β) (l : List β) (h : x ∈ l) :
     ∃ y ∈ runHeads eq l, eq y x = true := by
   cases l with
@@ -66,7 +64,7 @@ theorem runHeads_complete {β : Type} (eq : β → β → Bool)
     simp only [runHeads]
     rcases List.mem_cons.mp h with h | h
     · subst h; exact ⟨x, by simp, hrefl x⟩
-    · rcases runHeadsAux_complete eq htrans hrefl z x zs h with h' | ⟨y, hy, hyx⟩
+    · rcases runHeadsAux_complete eq hrefl z x zs h with h' | ⟨y, hy, hyx⟩
       · exact ⟨z, by simp, h'⟩
       · exact ⟨y, List.mem_cons_of_mem _ hy, hyx⟩
 
@@ -77,7 +75,7 @@ theorem mem_pairsOf {β : Type} (l : List β) (x y : β) (h : (x, y) ∈ pairsOf
   | cons z zs ih =>
     simp only [pairsOf, List.mem_append, List.mem_map, Prod.mk.injEq] at h
     rcases h with ⟨w, hw, rfl, rfl⟩ | h
-    · exact List.Sublist.cons₂ _ (List.singleton_sublist.mpr hw)
+    · exact List.Sublist.cons_cons _ (List.singleton_sublist.mpr hw)
     · exact List.Sublist.cons _ (ih h)
 
 /-- the triples are taken at increasing positions of the list -/
@@ -88,7 +86,7 @@ theorem mem_triplesOf {β : Type} (l : List β) (t : β × β × β) (h : t ∈ 
   | cons z zs ih =>
     simp only [triplesOf, List.mem_append, List.mem_map] at h
     rcases h with ⟨yz, hyz, rfl⟩ | h
-    · exact List.Sublist.cons₂ _ (mem_pairsOf zs yz.1 yz.2 hyz)
+    · exact List.Sublist.cons_cons _ (mem_pairsOf zs yz.1 yz.2 hyz)
     · exact List.Sublist.cons _ (ih h)
 
 theorem pairsOf_complete {β : Type} (l : List β) (x y : β) (h : [x, y].Sublist l) :
@@ -99,7 +97,7 @@ theorem pairsOf_complete {β : Type} (l : List β) (x y : β) (h : [x, y].Sublis
     simp only [pairsOf, List.mem_append, List.mem_map, Prod.mk.injEq]
     cases h with
     | cons _ h' => exact Or.inr (ih h')
-    | cons₂ _ h' => exact Or.inl ⟨y, List.singleton_sublist.mp h', rfl, rfl⟩
+    | cons_cons _ h' => exact Or.inl ⟨y, List.singleton_sublist.mp h', rfl, rfl⟩
 
 theorem triplesOf_complete {β : Type} (l : List β) (x y z : β) (h : [x, y, z].Sublist l) :
     (x, y, z) ∈ triplesOf l := by
@@ -109,7 +107,7 @@ theorem triplesOf_complete {β : Type} (l : List β) (x y z : β) (h : [x, y, z]
     simp only [triplesOf, List.mem_append, List.mem_map]
     cases h with
     | cons _ h' => exact Or.inr (ih h')
-    | cons₂ _ h' => exact Or.inl ⟨(y, z), pairsOf_complete ws y z h', rfl⟩
+    | cons_cons _ h' => exact Or.inl ⟨(y, z), pairsOf_complete ws y z h', rfl⟩
 
 /-! ### constants at ℝ -/
 
@@ -147,7 +145,7 @@ theorem solve3_spec (t : Row ℝ × Row ℝ × Row ℝ) (hd : tripleDet t ≠ 0)
   refine ⟨?_, ?_, ?_⟩ <;>
   · simp only [solve3, tripleDet, V3.det3, V3.dot, V3.cross, V3.sdiv, V3.smul, V3.add_x, V3.add_y,
       V3.add_z]
-    field_simp
+    rw [← mul_div_assoc, ← mul_div_assoc, ← mul_div_assoc, ← add_div, ← add_div, div_eq_iff hd']
     ring
 
 /-- the meeting point of three independent planes is unique -/
@@ -163,7 +161,7 @@ theorem solve3_unique (t : Row ℝ × Row ℝ × Row ℝ) (hd : tripleDet t ≠ 
   apply V3.ext' <;>
   · simp only [solve3, tripleDet, V3.det3, V3.dot, V3.cross, V3.sdiv, V3.smul, V3.add_x, V3.add_y,
       V3.add_z]
-    field_simp
+    rw [eq_div_iff hd']
     ring
 
 /-! ### membership in `makeVertices` -/
@@ -180,14 +178,13 @@ theorem mem_uniqueRounded (l : List (V3 ℝ)) (p : V3 ℝ) (h : p ∈ uniqueRoun
 theorem keyEq_iff (u v : V3 ℝ) : keyEq u v = true ↔ u = v := by
   obtain ⟨u1, u2, u3⟩ := u
   obtain ⟨v1, v2, v3⟩ := v
-  simp [keyEq, Scalar.eqb]
+  simp [keyEq, Scalar.eqb, and_assoc]
 
 theorem uniqueRounded_complete (l : List (V3 ℝ)) (x : V3 ℝ) (h : x ∈ l) :
     ∃ p ∈ uniqueRounded l, key p = key x := by
   have hx : (key x, x) ∈ (l.map fun x => (key x, x)).mergeSort (fun u v => keyLe u.1 v.1) := by
     rw [List.mem_mergeSort]; exact List.mem_map.mpr ⟨x, h, rfl⟩
   obtain ⟨y, hy, hyx⟩ := runHeads_complete (fun u v : V3 ℝ × V3 ℝ => keyEq u.1 v.1)
-    (by intro a b c hab hbc; rw [keyEq_iff] at *; exact hab.trans hbc)
     (by intro a; rw [keyEq_iff]) _ _ hx
   have hy' := mem_runHeads _ _ _ hy
   rw [List.mem_mergeSort] at hy'
@@ -248,7 +245,8 @@ theorem key_eq_close (p x : V3 ℝ) (h : key p = key x) :
   have c1 := round6_close p.x; have c2 := round6_close x.x
   have c3 := round6_close p.y; have c4 := round6_close x.y
   have c5 := round6_close p.z; have c6 := round6_close x.z
-  rw [abs_le] at *
-  refine ⟨⟨?_, ?_⟩, ⟨?_, ?_⟩, ⟨?_, ?_⟩⟩ <;> linarith [c1.1, c1.2, c2.1, c2.2, c3.1, c3.2, c4.1, c4.2, c5.1, c5.2, c6.1, c6.2]
+  rw [abs_le] at c1 c2 c3 c4 c5 c6
+  refine ⟨abs_le.mpr ⟨?_, ?_⟩, abs_le.mpr ⟨?_, ?_⟩, abs_le.mpr ⟨?_, ?_⟩⟩ <;>
+    linarith [c1.1, c1.2, c2.1, c2.2, c3.1, c3.2, c4.1, c4.2, c5.1, c5.2, c6.1, c6.2]
 
 end Fam
